@@ -173,7 +173,9 @@ def behaviour(f, nargs=None, max_paths=64):
     """The set of (decision path, result term) of callable ``f`` applied to fresh probes.
     Exceptions are part of the behaviour (type + message head)."""
     if nargs is None:
-        nargs = len(inspect.signature(f).parameters)
+        # one probe per positional parameter that has no default (defaults and keyword-only parameters are part of the behaviour)
+        ps = inspect.signature(f).parameters.values()
+        nargs = len([p for p in ps if p.kind in (p.POSITIONAL_ONLY, p.POSITIONAL_OR_KEYWORD) and p.default is p.empty])
     out = []
     pending = [[]]
     while pending and len(out) < max_paths:
